@@ -392,7 +392,7 @@ pub mod sched {
         let shared: Arc<(Box<dyn DynDs>, Vec<(Q, A)>)> = Arc::new((x, batch));
         let threads = case.threads.max(2);
         let stats = Arc::new(Mutex::new(Stats::default()));
-        let dir = std::env::temp_dir().join(format!("qsim-sched-{}-{}", std::process::id(), case.sched_seed));
+        let dir = crate::sup::tmp_dir().join(format!("sched-{}-{}", std::process::id(), case.sched_seed));
         let _ = std::fs::remove_dir_all(&dir);
         let _ = std::fs::create_dir_all(&dir);
         let mut config = Config::new();
